@@ -70,7 +70,7 @@ def graph_net(rng, n, kind=None):
         for k in range(3):
             ix = f"h{k}"
             size[ix] = 2
-            for t in rng.sample(range(n), rng.randint(3, 5)):
+            for t in rng.sample(range(n), min(n, rng.randint(3, 5))):
                 inputs[t].append(ix)
     output = []
     for k in range(rng.choice([0, 0, 1, 2])):
@@ -317,7 +317,7 @@ def run(run):
     STYLES = ["one-block", "singletons", "gaps", "unbalanced", "alternating", "random", "random"]
     for _ in range(30 if quick else 400):
         if rng.random() < 0.5:
-            inputs, output, size, kind = graph_net(rng, rng.randint(3, 14))
+            inputs, output, size, kind = graph_net(rng, rng.randint(6, 14))
         else:
             inputs, output, size, kind = rng.choice(smalls)
             if len(inputs) < 2:
